@@ -35,6 +35,20 @@ type OverlapCase struct {
 	// context of its own that is cancelled as soon as PublishContext has
 	// returned, i.e. while the event may still be queued behind others.
 	CancelEvery int `json:"cancel_every,omitempty"`
+	// Relay (needs handler 0 synchronous and context-aware, no CancelEvery):
+	// while handler 0 handles an original event it publishes a command with
+	// the context it was given; an asynchronous command handler publishes,
+	// with the context IT was given, a derived event of the original type -
+	// which is routed back to handler 0 from another goroutine while the
+	// first invocation may still be running.
+	Relay bool `json:"relay,omitempty"`
+}
+
+// Cmd is the relayed command.
+type Cmd struct{ ID int }
+
+func (c *OverlapCase) relays() bool {
+	return c.Relay && c.CancelEvery == 0 && len(c.Handlers) > 0 && !c.Handlers[0].Async && c.Handlers[0].Ctx
 }
 
 // progress counters shared with the stall oracle
@@ -52,6 +66,10 @@ func (k *counters) guard(what string, fn func() *vkit.Outcome) *vkit.Outcome {
 }
 
 type hstate struct {
+	relay   func(ctx context.Context, id int) // handler 0 of a relaying case
+	idx     int
+	orderMu *sync.Mutex
+	order   map[int][]int // event id -> indices of the synchronous handlers in the order they handled it
 	k       *counters
 	sync    bool
 	seenSet sync.Map // event id -> struct{} once the handler body has finished with it
@@ -64,11 +82,14 @@ type hstate struct {
 }
 
 func subscribeSeq(bus *eventbus.EventBus, h H, st *hstate) {
-	body := func(id int) {
+	body := func(ctx context.Context, id int) {
 		st.k.active.Add(1)
 		defer func() { st.k.handled.Add(1); st.k.active.Add(-1) }()
 		if !st.inside.CompareAndSwap(0, 1) {
 			st.overlap.Add(1)
+		}
+		if st.relay != nil && ctx != nil {
+			st.relay(ctx, id)
 		}
 		for i := 0; i < h.Yield; i++ {
 			runtime.Gosched()
@@ -76,6 +97,11 @@ func subscribeSeq(bus *eventbus.EventBus, h H, st *hstate) {
 		st.mu.Lock()
 		st.seen = append(st.seen, id)
 		st.mu.Unlock()
+		if st.sync && st.order != nil {
+			st.orderMu.Lock()
+			st.order[id] = append(st.order[id], st.idx)
+			st.orderMu.Unlock()
+		}
 		st.seenSet.Store(id, struct{}{})
 		if !st.inside.CompareAndSwap(1, 0) {
 			st.overlap.Add(1)
@@ -86,9 +112,9 @@ func subscribeSeq(bus *eventbus.EventBus, h H, st *hstate) {
 		so = append(so, eventbus.Async())
 	}
 	if h.Ctx {
-		eventbus.SubscribeContext(bus, func(_ context.Context, e Ev) { body(e.ID) }, so...)
+		eventbus.SubscribeContext(bus, func(ctx context.Context, e Ev) { body(ctx, e.ID) }, so...)
 	} else {
-		eventbus.Subscribe(bus, func(e Ev) { body(e.ID) }, so...)
+		eventbus.Subscribe(bus, func(e Ev) { body(nil, e.ID) }, so...)
 	}
 }
 
@@ -108,6 +134,8 @@ func runOverlap(c *OverlapCase, k *counters) *vkit.Outcome {
 	}
 	for round := 0; round < c.Rounds; round++ {
 		sts := make([]*hstate, len(c.Handlers))
+		var orderMu sync.Mutex
+		order := map[int][]int{}
 		var early atomic.Value // first report of a publish/after-hook that ran ahead of a synchronous handler
 		missing := func(id int) int {
 			for i, st := range sts {
@@ -128,8 +156,19 @@ func runOverlap(c *OverlapCase, k *counters) *vkit.Outcome {
 			}
 		}))...)
 		for i, h := range c.Handlers {
-			sts[i] = &hstate{sync: !h.Async, k: k}
+			sts[i] = &hstate{sync: !h.Async, k: k, idx: i, orderMu: &orderMu, order: order}
 			subscribeSeq(bus, h, sts[i])
+		}
+		if c.relays() {
+			orig := total
+			sts[0].relay = func(ctx context.Context, id int) {
+				if id < orig {
+					eventbus.PublishContext(bus, ctx, Cmd{id})
+				}
+			}
+			eventbus.SubscribeContext(bus, func(cctx context.Context, cm Cmd) {
+				eventbus.PublishContext(bus, cctx, Ev{orig + cm.ID})
+			}, eventbus.Async())
 		}
 		var start, done sync.WaitGroup
 		var ready atomic.Int32
@@ -171,6 +210,16 @@ func runOverlap(c *OverlapCase, k *counters) *vkit.Outcome {
 			o.Failf("", "round %d: %s (handlers %+v)", round, msg, c.Handlers)
 			return o
 		}
+		// one publish runs its synchronous handlers in subscription order,
+		// whatever the other publishers are doing
+		for id, seq := range order {
+			for j := 1; j < len(seq); j++ {
+				if seq[j] <= seq[j-1] {
+					o.Failf("", "round %d: event %d reached the synchronous handlers in the order %v; they were subscribed in the order 0..%d (handlers %+v)", round, id, seq, len(c.Handlers)-1, c.Handlers)
+					return o
+				}
+			}
+		}
 		for i, st := range sts {
 			if n := st.overlap.Load(); n > 0 {
 				o.Failf("", "round %d: Sequential handler %d %+v overlapped itself (%d overlapping entries/exits)", round, i, c.Handlers[i], n)
@@ -187,6 +236,10 @@ func runOverlap(c *OverlapCase, k *counters) *vkit.Outcome {
 				cnt[id]++
 			}
 			ok := true
+			total := total
+			if c.relays() {
+				total *= 2 // every original event produces one derived event
+			}
 			for id := 0; ok && id < total; id++ {
 				_, canc := cancelled.Load(id)
 				ok = cnt[id] == 1 || (cnt[id] == 0 && canc && !st.sync)
@@ -204,6 +257,9 @@ func runOverlap(c *OverlapCase, k *counters) *vkit.Outcome {
 	}
 	if c.CancelEvery > 0 {
 		o.Class("publishes_with_own_context_cancelled_while_queued")
+	}
+	if c.relays() {
+		o.Class("handler_context_relayed_through_another_goroutine_back_to_the_handler")
 	}
 	return o
 }
